@@ -296,6 +296,25 @@ Fixpoint assoc_get (kvs : list (value * value)) (k : value) : option (option val
       end
   end.
 
+(* lookup in a Table as far as cmp is concerned (probing and hashing are C02/C10): Table_Get /
+   Table_Mem test eq(stored key, key); a `set` on an eq key replaces the value, so the result
+   is the value of the last `set` whose key is eq *)
+Fixpoint eq_get (ins : list (value * value)) (k : value) : option (option value) :=
+  match ins with
+  | [] => Some None
+  | (k', v') :: r =>
+      match eq_get r k with
+      | None => None
+      | Some (Some v) => Some (Some v)
+      | Some None =>
+          match v_eq k' k with
+          | None => None
+          | Some true => Some (Some v')
+          | Some false => Some None
+          end
+      end
+  end.
+
 (* specification of the same, from the reference order alone: the value of the last binding
    whose key is order-equal *)
 Fixpoint spec_get (ins : list (value * value)) (k : value) : option value :=
